@@ -43,7 +43,10 @@ Drift(i) ==
       p == St(t.pre)
       q == St(t.post)
   IN  IF CheckConformance /\ t.fault = "" /\ t.panic = "" /\ Modelled(p, t.base)
-      THEN ViewDiff(ModelView(Step(p, t.base)), ModelView(q))
+      THEN LET succ == StepSet(p, t.base) IN
+           IF \E x \in succ : ViewDiff(ModelView(x), ModelView(q)) = {} THEN {}
+           ELSE IF succ = {} THEN {"no-successor"}
+           ELSE ViewDiff(ModelView(CHOOSE x \in succ : TRUE), ModelView(q))
       ELSE {}
 
 Unmodelled(i) ==
